@@ -94,7 +94,6 @@ Definition op_ok (h : state) (o : op) : Prop :=
   | OStage _ c _ => In c (s_cfgs h)
   | ORemCfgObj _ cascade => cascade = true
   | ORemCfgName _ cascade => cascade = true
-  | ORoundTrip => MULTI_DEVICE_SUPPORTED_VERSION <= s_ir h
   | _ => True
   end.
 Fixpoint ops_ok (h : state) (ops : list op) : Prop :=
@@ -698,7 +697,7 @@ Proof.
 Qed.
 
 Lemma rt_keep_new_ir h n : MULTI_DEVICE_SUPPORTED_VERSION <= s_ir h -> rt_keep h n = true.
-Proof. intros H. unfold rt_keep. apply orb_true_iff. left. lia. Qed.
+Proof. intros H. unfold rt_keep. lia. Qed.
 
 Lemma rt_nodes_id h nodes acc :
   MULTI_DEVICE_SUPPORTED_VERSION <= s_ir h ->
@@ -721,14 +720,25 @@ Proof.
   rewrite (rt_nodes_id h (s_nodes h) _ Hir D Hc Hn (incl_refl _)). destruct h; reflexivity.
 Qed.
 
-Lemma roundtrip_inv h :
-  MULTI_DEVICE_SUPPORTED_VERSION <= s_ir h -> DevInv h -> DevInv (fst (roundtrip h)).
+(* below IR 11 nothing is kept, at any depth *)
+Lemma rt_nodes_old_ir h : forall nodes acc,
+  s_ir h < MULTI_DEVICE_SUPPORTED_VERSION ->
+  rt_nodes h [] nodes acc = (map (fun p => (fst p, with_dc (snd p) [])) nodes, acc).
 Proof.
-  intros Hir Hinv. unfold roundtrip. destruct (rt_domain h) eqn:D; simpl; [|exact Hinv].
+  induction nodes as [|[n nd] r IH]; intros acc Hir; simpl; [reflexivity|].
+  assert (K : rt_keep h n = false) by (unfold rt_keep; lia). rewrite K. rewrite (IH acc Hir). reflexivity.
+Qed.
+
+Lemma roundtrip_inv h : DevInv h -> DevInv (fst (roundtrip h)).
+Proof.
+  intros Hinv. unfold roundtrip. destruct (rt_domain h) eqn:D; simpl; [|exact Hinv].
   destruct (ser_ok h) eqn:S; simpl; [|exact Hinv].
-  destruct (s_ir h <? MULTI_DEVICE_SUPPORTED_VERSION) eqn:E; [lia|].
-  destruct Hinv as [Hc Hn].
-  rewrite (rt_nodes_id h (s_nodes h) _ Hir D Hc Hn (incl_refl _)). simpl. split; assumption.
+  destruct (s_ir h <? MULTI_DEVICE_SUPPORTED_VERSION) eqn:E.
+  - rewrite rt_nodes_old_ir by lia. simpl. split; simpl.
+    + split; constructor.
+    + unfold nodes_ok. rewrite Forall_map. apply Forall_forall. intros p _. constructor.
+  - destruct Hinv as [Hc Hn].
+    rewrite (rt_nodes_id h (s_nodes h) _ ltac:(lia) D Hc Hn (incl_refl _)). simpl. split; assumption.
 Qed.
 
 (* ------------------------------------------------------------------ the step lemma and the history theorem *)
@@ -746,7 +756,7 @@ Proof.
   - apply on_node_inv; [|exact Hinv]. intros nd nd'. apply resize_inputs_nd_ok.
   - apply remove_node_inv. exact Hinv.
   - apply clone_inv. exact Hinv.
-  - apply roundtrip_inv; assumption.
+  - apply roundtrip_inv. exact Hinv.
 Qed.
 
 Lemma inv_reachable ops : forall h, DevInv h -> ops_ok h ops -> DevInv (run h ops).
